@@ -28,9 +28,20 @@ def main():
                 for name, text in mod.generate().items():
                     write_if_changed(os.path.join(COQ, "Gen", name), text)
             except Exception:
-                traceback.print_exc()
-                print("TRANSLATOR-FAILED", m.name)
-                rc = 1
+                tb = traceback.format_exc()
+                print(tb)
+                outs = getattr(mod, "OUTPUTS", None)
+                if outs:
+                    # scoped failure: the generated file is replaced by one that does not compile, so that exactly the
+                    # theorem files depending on it (and hence exactly the properties they belong to) report the broken tie
+                    for name in outs:
+                        write_if_changed(os.path.join(COQ, "Gen", name),
+                                         "(* TRANSLATOR FAILED (harness/translators/%s.py) on /repo's current source:\n%s*)\n"
+                                         "Definition translator_failed : False := I.\n" % (m.name, tb.replace("*)", "* )")))
+                    print("TRANSLATOR-FAILED-SCOPED", m.name, outs)
+                else:
+                    print("TRANSLATOR-FAILED", m.name)
+                    rc = 1
     return rc
 
 
